@@ -173,13 +173,11 @@ const verifUnit = int64(time.Second)
 //   - a consumer stalled inside the underlying Read does not keep the hold past the timeout;
 //   - a Close issued at the very instant the idle timer is due may win or lose against the
 //     timer callback; either way all of the above holds.
-func verifC11Streamer(steps int, twin bool) {
+func verifC11Streamer(steps int, others int, twin bool) {
+	// others = read holds of unrelated streams: with one, a surplus EndRead steals it (seen in
+	// the count); with none, it drives the lock's reader count negative (the lock panics)
 	verifPanicsAreViolations()
 	s := verifBareStore()
-	others := 1 // read holds of unrelated streams
-	if verifTier() == 1 {
-		others = verifChoice("otherReaders", 2)
-	}
 	for i := 0; i < others; i++ {
 		verifAssume(s.mrsw.BeginRead() == nil)
 	}
@@ -432,16 +430,21 @@ func verifC11Streamer(steps int, twin bool) {
 }
 
 func VerifC11Streamer() {
-	k := 3
+	k := 4
 	if verifTier() == 1 {
-		k = 6
+		k = 5
 	}
-	verifC11Streamer(k, false)
+	verifC11Streamer(k, 1, false)
+}
+
+// VerifC11StreamerAlone: the stream is the only reader (thorough tier).
+func VerifC11StreamerAlone() {
+	verifC11Streamer(4, 0, false)
 }
 
 // VerifC11Twin: same scenario, but claims the hold is never released - must be violated.
 func VerifC11Twin() {
-	verifC11Streamer(2, true)
+	verifC11Streamer(2, 1, true)
 }
 
 // =====================================================================================
